@@ -485,11 +485,10 @@ def model_inverse3x3(sym, e, st):
         raise Unsupported("inverse3x3 argument %s" % estr(e.a[0]))
     name = a.name
     cells = st.arr.get(name, {})
-    key = tuple(cells[(i, j)].canon() if (i, j) in cells else None for i in range(3) for j in range(3))
-    if any(k is None for k in key):
+    if any((i, j) not in cells for i in range(3) for j in range(3)):
         raise Unsupported("inverse3x3 of a matrix with unassigned cells")
-    tag = abs(hash(key)) % (10 ** 8)
+    rows, key = vn.inv3x3_atoms([[cells[(i, j)] for j in range(3)] for i in range(3)])
     for i in range(3):
         for j in range(3):
-            st.arr[name][(i, j)] = vn.atom(("inv3x3", i, j, key))
+            st.arr[name][(i, j)] = rows[i][j]
     return vn.atom(("inv3x3_status", key))
